@@ -17,7 +17,9 @@ written to coq/gen/ScopeCfg.v (token level, rustlex).
   compiler.rs  fn emit_scope_end  : chooses CloseUpvalue when `is_captured`, else Pop
   compiler.rs  fn mark_initialised / mark_last_initialised : the only field assigned is `depth` (is_captured survives)
   vm.rs        fn close_upvalue_impl : close_upvalues(stack_size - 1) with the size taken BEFORE the pop
-The last seven are the shapes Upvalues.v / ScopeComp.v transliterate; `shapes_known = true` is a side
+  vm.rs        fn return_impl     : close_upvalues_for_frame() unconditionally (not under a frames.len() test), before the frame is
+               popped and the stack truncated
+The last eight are the shapes Upvalues.v / ScopeComp.v transliterate; `shapes_known = true` is a side
 condition of props/C06.v (fail closed: an unrecognised shape makes it false).
 
 Stand-alone use (scratch worktrees): VERIF_REPO=/tmp/wt translate_c06.py"""
@@ -120,6 +122,16 @@ def facts():
     i_sz, i_cl, i_pop = first(cu, "stack_size"), first(cu, "close_upvalues"), first(cu, "pop")
     if not (0 <= i_sz < i_cl < i_pop and has_seq(cu, ["stack_size", "-", "1"])):
         unknown.append("close_upvalue_impl: `let stack_size = ..; close_upvalues(stack_size - 1); pop()` (in this order) not found")
+    # return_impl: the frame's upvalues are closed UNCONDITIONALLY (directly in the function body, not under an `if` such as a
+    # frame-count test) and before the frame is popped / the stack truncated - also for the entry function of a fiber, whose stack
+    # is truncated right afterwards (ReturnFrame of Upvalues.v has no condition)
+    rb = fn_body(vm, "return_impl")
+    i_cf = first(rb, "close_upvalues_for_frame")
+    i_tr = first(rb, "truncate")
+    i_fp = min([i for i in range(len(rb) - 2) if rb[i:i + 3] == ["frames", ".", "pop"]], default=-1)
+    nest = rb[:max(i_cf, 0)].count("{") - rb[:max(i_cf, 0)].count("}")
+    if not (0 <= i_cf < i_tr and i_cf < i_fp and nest == 1 and "if" not in rb[:i_cf]):
+        unknown.append("return_impl: unconditional `close_upvalues_for_frame()` before `frames.pop()` / `truncate` not found")
     return f, unknown
 
 
